@@ -4,6 +4,12 @@ from props.c03 import py_select
 
 
 def q4_piece(rng):
+    r = rng.random()
+    if r < 0.12:
+        # a pure constant (step functions, offsets): every number but k is zero
+        return [C.bits(rng.choice([5.0, -2.0, rng.uniform(-3, 3)]))] + [C.bits(rng.choice([0.0, 0.0, -0.0])) for _ in range(5)]
+    if r < 0.2:
+        return [C.bits(rng.choice([0.0, -0.0])) for _ in range(6)]
     return [C.bits(G.coeff(rng, rng.choice(["int", "int", "small", "log"]))) for _ in range(6)]
 
 
